@@ -567,7 +567,7 @@ def make_machine(rec, Failure, tier, sub):
 class Histories(SubCheck):
     name = "histories"
     stateful = True
-    budget = {"quick": 32, "thorough": 2400}      # histories
+    budget = {"quick": 32, "thorough": 1600}      # histories
     step_count = {"quick": 10, "thorough": 16}
     weight = 4.0
 
